@@ -2,7 +2,6 @@ package g_kv
 
 import (
 	"context"
-	"encoding/json"
 	"fmt"
 	"sort"
 	"strings"
@@ -37,10 +36,11 @@ type c30World struct {
 	sysBuckets  map[platform.ID][]platform.ID // org → its system buckets (noted right after creation)
 	sysNames    map[platform.ID]string        // system bucket → name
 	deletedOrgs map[platform.ID][]platform.ID // org whose delete returned nil → buckets it had at that moment
+	orgNames    map[platform.ID]string        // last name an organization was given (also after its deletion)
 }
 
 func c30NewWorld(t testing.TB) *c30World {
-	w := &c30World{t: t, st: gkvNewStore(t), sysBuckets: map[platform.ID][]platform.ID{}, sysNames: map[platform.ID]string{}, deletedOrgs: map[platform.ID][]platform.ID{}}
+	w := &c30World{t: t, st: gkvNewStore(t), sysBuckets: map[platform.ID][]platform.ID{}, sysNames: map[platform.ID]string{}, deletedOrgs: map[platform.ID][]platform.ID{}, orgNames: map[platform.ID]string{}}
 	w.ts = tenant.NewService(tenant.NewStore(w.st))
 	w.ts.Apply(tenant.WithTaskService(gkvNoTasks{}))
 	return w
@@ -119,14 +119,15 @@ func c30Sweep(w *c30World, ev func(string)) (viol []c30Viol) {
 		o, ok := orgByID[id]
 		switch {
 		case !ok:
-			add("dangling_index_entry", f("kind", "org"), "organization name index has %q -> %s but no such organization exists (a lookup of that name fails, and the name can never be used again)", e[0], id)
+			shape := "plain"
+			if n, ok := w.orgNames[id]; ok && strings.TrimSpace(n) != n {
+				shape = "whitespace_padded"
+			}
+			add("dangling_index_entry", f("kind", "org", "name", shape), "organization name index has %q -> %s but no such organization exists (a lookup of that name fails, and the name can never be used again)", e[0], id)
 		case o.Name != e[0] && strings.TrimSpace(o.Name) != e[0]:
 			add("index_entry_stale", f("kind", "org"), "organization name index has %q -> %s but that organization is named %q", e[0], id, o.Name)
 		}
 		ev("org_index_entry")
-	}
-	if len(rawIdx) != len(orgs) && err == nil {
-		add("index_size", f("kind", "org"), "%d organizations but %d name index entries", len(orgs), len(rawIdx))
 	}
 
 	// ---- users ----
@@ -168,9 +169,6 @@ func c30Sweep(w *c30World, ev func(string)) (viol []c30Viol) {
 			add("index_entry_stale", f("kind", "user"), "user name index has %q -> %s but that user is named %q", e[0], id, u.Name)
 		}
 		ev("user_index_entry")
-	}
-	if len(rawU) != len(users) && err == nil {
-		add("index_size", f("kind", "user"), "%d users but %d name index entries", len(users), len(rawU))
 	}
 
 	// ---- buckets ----
@@ -219,9 +217,6 @@ func c30Sweep(w *c30World, ev func(string)) (viol []c30Viol) {
 			add("index_entry_stale", f("kind", "bucket"), "bucket name index has %q -> %s but that bucket is %s/%q", e[0], id, b.OrgID, b.Name)
 		}
 		ev("bucket_index_entry")
-	}
-	if len(rawB) != len(buckets) && err == nil {
-		add("index_size", f("kind", "bucket"), "%d buckets but %d name index entries", len(buckets), len(rawB))
 	}
 
 	// ---- system buckets of living organizations are still there, under their names ----
@@ -318,18 +313,20 @@ var (
 	c30UserNames   = []string{"u1", "u2", "u3", "u1 ", "U1", "u/1"}
 )
 
-func c30Pick(rg *vkit.Rand, ids []platform.ID) platform.ID {
-	if len(ids) == 0 {
-		return platform.ID(0x4242)
-	}
-	if rg.Chance(1, 12) {
+// c30Pick picks a target handle: mostly one that is still alive, sometimes a deleted or a
+// never-existing one.
+func c30Pick(rg *vkit.Rand, ids []platform.ID, alive func(platform.ID) bool) platform.ID {
+	if len(ids) == 0 || rg.Chance(1, 16) {
 		return platform.ID(0x4242) // never existed
 	}
-	// recent handles are more likely alive
-	if rg.Bool() {
-		return ids[len(ids)-1-rg.Intn((len(ids)+1)/2)]
+	id := vkit.Pick(rg, ids)
+	if rg.Chance(1, 6) {
+		return id
 	}
-	return vkit.Pick(rg, ids)
+	for try := 0; try < 6 && !alive(id); try++ {
+		id = vkit.Pick(rg, ids)
+	}
+	return id
 }
 
 func c30Err(err error) string {
@@ -351,6 +348,7 @@ func c30Step(w *c30World, rg *vkit.Rand, ev func(string)) (desc string, viol []c
 	}
 	noteOrg := func(o *influxdb.Organization) {
 		w.orgs = append(w.orgs, o.ID)
+		w.orgNames[o.ID] = o.Name
 		bs, _, err := w.ts.FindBuckets(ctx, influxdb.BucketFilter{OrganizationID: &o.ID})
 		if err != nil {
 			add("sweep_error", map[string]string{"what": "system buckets"}, "%v", err)
@@ -368,9 +366,18 @@ func c30Step(w *c30World, rg *vkit.Rand, ev func(string)) (desc string, viol []c
 			add("system_bucket_missing", map[string]string{"kind": "bucket"}, "new organization %s has system buckets %v", o.ID, names)
 		}
 	}
+	orgAlive := func(id platform.ID) bool { _, err := w.ts.FindOrganizationByID(ctx, id); return err == nil }
+	bktAlive := func(id platform.ID) bool { _, err := w.ts.FindBucketByID(ctx, id); return err == nil }
+	userAlive := func(id platform.ID) bool { _, err := w.ts.FindUserByID(ctx, id); return err == nil }
+	name := func(pool []string) string { // the first three names of a pool are the plain, valid ones
+		if rg.Chance(3, 5) {
+			return pool[rg.Intn(3)]
+		}
+		return vkit.Pick(rg, pool)
+	}
 	switch k := rg.Intn(40); {
 	case k < 4:
-		o := &influxdb.Organization{Name: vkit.Pick(rg, c30OrgNames)}
+		o := &influxdb.Organization{Name: name(c30OrgNames)}
 		err := w.ts.CreateOrganization(ctx, o)
 		if err == nil {
 			noteOrg(o)
@@ -378,17 +385,20 @@ func c30Step(w *c30World, rg *vkit.Rand, ev func(string)) (desc string, viol []c
 		desc = fmt.Sprintf("CreateOrganization(%q) → %s %s", o.Name, c30Err(err), o.ID)
 		ev("op_org_create_" + c30OK(err))
 	case k < 8:
-		id, n := c30Pick(rg, w.orgs), vkit.Pick(rg, c30OrgNames)
+		id, n := c30Pick(rg, w.orgs, orgAlive), name(c30OrgNames)
 		_, err := w.ts.UpdateOrganization(ctx, id, influxdb.OrganizationUpdate{Name: &n})
+		if err == nil {
+			w.orgNames[id] = n
+		}
 		desc = fmt.Sprintf("UpdateOrganization(%s, name=%q) → %s", id, n, c30Err(err))
 		ev("op_org_rename_" + c30OK(err))
 	case k < 9:
-		id, d := c30Pick(rg, w.orgs), "desc"
+		id, d := c30Pick(rg, w.orgs, orgAlive), "desc"
 		_, err := w.ts.UpdateOrganization(ctx, id, influxdb.OrganizationUpdate{Description: &d})
 		desc = fmt.Sprintf("UpdateOrganization(%s, description) → %s", id, c30Err(err))
 		ev("op_org_describe_" + c30OK(err))
 	case k < 12:
-		id := c30Pick(rg, w.orgs)
+		id := c30Pick(rg, w.orgs, orgAlive)
 		before, _, _ := w.ts.FindBuckets(ctx, influxdb.BucketFilter{OrganizationID: &id})
 		err := w.ts.DeleteOrganization(ctx, id)
 		if err == nil {
@@ -401,7 +411,7 @@ func c30Step(w *c30World, rg *vkit.Rand, ev func(string)) (desc string, viol []c
 		desc = fmt.Sprintf("DeleteOrganization(%s) → %s", id, c30Err(err))
 		ev("op_org_delete_" + c30OK(err))
 	case k < 17:
-		b := &influxdb.Bucket{OrgID: c30Pick(rg, w.orgs), Name: vkit.Pick(rg, c30BucketNames), RetentionPeriod: time.Hour}
+		b := &influxdb.Bucket{OrgID: c30Pick(rg, w.orgs, orgAlive), Name: name(c30BucketNames), RetentionPeriod: time.Hour}
 		err := w.ts.CreateBucket(ctx, b)
 		if err == nil {
 			w.buckets = append(w.buckets, b.ID)
@@ -409,12 +419,12 @@ func c30Step(w *c30World, rg *vkit.Rand, ev func(string)) (desc string, viol []c
 		desc = fmt.Sprintf("CreateBucket(org=%s, %q) → %s %s", b.OrgID, b.Name, c30Err(err), b.ID)
 		ev("op_bucket_create_" + c30OK(err))
 	case k < 21:
-		id, n := c30Pick(rg, w.buckets), vkit.Pick(rg, c30BucketNames)
+		id, n := c30Pick(rg, w.buckets, bktAlive), name(c30BucketNames)
 		_, err := w.ts.UpdateBucket(ctx, id, influxdb.BucketUpdate{Name: &n})
 		desc = fmt.Sprintf("UpdateBucket(%s, name=%q) → %s", id, n, c30Err(err))
 		ev("op_bucket_rename_" + c30OK(err))
 	case k < 24:
-		id := c30Pick(rg, w.buckets)
+		id := c30Pick(rg, w.buckets, bktAlive)
 		err := w.ts.DeleteBucket(ctx, id)
 		desc = fmt.Sprintf("DeleteBucket(%s) → %s", id, c30Err(err))
 		ev("op_bucket_delete_" + c30OK(err))
@@ -452,21 +462,21 @@ func c30Step(w *c30World, rg *vkit.Rand, ev func(string)) (desc string, viol []c
 			desc = fmt.Sprintf("UpdateBucket(system %s, description) → %s", id, c30Err(err))
 			ev("op_sysbucket_describe_" + c30OK(err))
 		}
-	case k < 30:
-		u := &influxdb.User{Name: vkit.Pick(rg, c30UserNames), Status: influxdb.Active}
+	case k < 29:
+		u := &influxdb.User{Name: name(c30UserNames), Status: influxdb.Active}
 		err := w.ts.CreateUser(ctx, u)
 		if err == nil {
 			w.users = append(w.users, u.ID)
 		}
 		desc = fmt.Sprintf("CreateUser(%q) → %s %s", u.Name, c30Err(err), u.ID)
 		ev("op_user_create_" + c30OK(err))
-	case k < 33:
-		id, n := c30Pick(rg, w.users), vkit.Pick(rg, c30UserNames)
+	case k < 31:
+		id, n := c30Pick(rg, w.users, userAlive), name(c30UserNames)
 		_, err := w.ts.UpdateUser(ctx, id, influxdb.UserUpdate{Name: &n})
 		desc = fmt.Sprintf("UpdateUser(%s, name=%q) → %s", id, n, c30Err(err))
 		ev("op_user_rename_" + c30OK(err))
-	case k < 35:
-		id := c30Pick(rg, w.users)
+	case k < 33:
+		id := c30Pick(rg, w.users, userAlive)
 		err := w.ts.DeleteUser(ctx, id)
 		desc = fmt.Sprintf("DeleteUser(%s) → %s", id, c30Err(err))
 		ev("op_user_delete_" + c30OK(err))
@@ -474,19 +484,19 @@ func c30Step(w *c30World, rg *vkit.Rand, ev func(string)) (desc string, viol []c
 		var res platform.ID
 		rt := influxdb.OrgsResourceType
 		if rg.Bool() {
-			res = c30Pick(rg, w.orgs)
+			res = c30Pick(rg, w.orgs, orgAlive)
 			if _, err := w.ts.FindOrganizationByID(ctx, res); err != nil {
 				desc = "CreateUserResourceMapping skipped (organization gone)"
 				break
 			}
 		} else {
-			res, rt = c30Pick(rg, w.buckets), influxdb.BucketsResourceType
+			res, rt = c30Pick(rg, w.buckets, bktAlive), influxdb.BucketsResourceType
 			if _, err := w.ts.FindBucketByID(ctx, res); err != nil {
 				desc = "CreateUserResourceMapping skipped (bucket gone)"
 				break
 			}
 		}
-		m := &influxdb.UserResourceMapping{UserID: c30Pick(rg, w.users), UserType: vkit.Pick(rg, []influxdb.UserType{influxdb.Owner, influxdb.Member}), MappingType: influxdb.UserMappingType, ResourceType: rt, ResourceID: res}
+		m := &influxdb.UserResourceMapping{UserID: c30Pick(rg, w.users, userAlive), UserType: vkit.Pick(rg, []influxdb.UserType{influxdb.Owner, influxdb.Member}), MappingType: influxdb.UserMappingType, ResourceType: rt, ResourceID: res}
 		err := w.ts.CreateUserResourceMapping(ctx, m)
 		if err == nil {
 			w.urms = append(w.urms, [2]platform.ID{m.ResourceID, m.UserID})
@@ -556,6 +566,7 @@ func TestC30(t *testing.T) {
 		steps := rg.Range(8, 30)
 		var hist []string
 		okOps, structural := 0, 0
+		seenSig := map[string]bool{}
 		for s := 0; s < steps; s++ {
 			desc, vs := c30Step(w, rg, ev)
 			hist = append(hist, desc)
@@ -566,9 +577,18 @@ func TestC30(t *testing.T) {
 				}
 			}
 			vs = append(vs, c30Sweep(w, ev)...)
-			if len(vs) > 0 {
-				c30Report(r, w, append([]string(nil), hist...), vs, "sequential")
-				break
+			// report each kind of violation once per history and keep going: a state that is
+			// already broken in one respect must not hide what the rest of the history does
+			var fresh []c30Viol
+			for _, v := range vs {
+				sig := v.class + fmt.Sprint(v.feat)
+				if !seenSig[sig] {
+					seenSig[sig] = true
+					fresh = append(fresh, v)
+				}
+			}
+			if len(fresh) > 0 {
+				c30Report(r, w, append([]string(nil), hist...), fresh, "sequential")
 			}
 		}
 		r.Case(strings.Join(hist, "\n"), okOps >= 5 && structural >= 1)
@@ -701,5 +721,4 @@ func TestC30(t *testing.T) {
 			r.Sample(map[string]any{"concurrent_round": hist})
 		}
 	}
-	_ = json.Marshal
 }
